@@ -187,6 +187,43 @@ theorem float_eq (s : Bytes) : Model.Lang.floatRe s = Spec.Lang.float s := by
               simp [hxd]
             simp [Spec.Lang.digits, this]
 
+
+theorem isDigit_eq (c : UInt8) : Model.Lang.isDigit c = Spec.Lang.digit c := rfl
+
+/-- `^\d+$` -/
+theorem int_eq (s : Bytes) : Model.Lang.intRe s = Spec.Lang.int s := by
+  simp [Model.Lang.intRe, Spec.Lang.int, Spec.Lang.digits, isDigit_eq]
+  rfl
+
+theorem digit_of_range (c : UInt8) (h : (51 ≤ c && c ≤ 57) = true) : Spec.Lang.digit c = true := by
+  simp only [Spec.Lang.digit, Bool.and_eq_true, decide_eq_true_eq] at h ⊢
+  exact ⟨Nat.le_trans (by decide) h.1, h.2⟩
+
+/-- `^1[3-9]\d{9}$`: 11 digits, first `1`, second in `3…9` -/
+theorem phone_eq (s : Bytes) : Model.Lang.phoneRe s = Spec.Lang.phone s := by
+  unfold Model.Lang.phoneRe Spec.Lang.phone
+  split
+  · rename_i c rest
+    simp only [List.length_cons, List.all_cons, List.getElem?_cons_zero, List.getElem?_cons_succ]
+    have hd : Spec.Lang.digit 49 = true := by decide
+    by_cases hc : (51 ≤ c && c ≤ 57) = true
+    · have hcd := digit_of_range c hc
+      have e : (rest.length + 1 + 1 == 11) = (rest.length == 9) := by
+        by_cases h : rest.length = 9 <;> simp [h] <;> omega
+      simp only [hc, hd, hcd, Bool.true_and, e, beq_self_eq_true, Bool.and_true]
+      rfl
+    · have hc' : (51 ≤ c && c ≤ 57) = false := by simpa using hc
+      simp [hc']
+  · rename_i hne
+    -- not of the shape `1 :: c :: rest`
+    match s, hne with
+    | [], _ => rfl
+    | [a], _ => simp
+    | a :: c :: rest, hne =>
+      have ha : a ≠ 49 := fun e => hne c rest (by rw [e])
+      simp [ha]
+
+
 end PGV.Proofs.LangEq
 
 namespace PGV.Proofs.LangEq
@@ -224,5 +261,6 @@ theorem idcard_eq (s : Bytes) : Model.Lang.idCardRe s = Spec.Lang.idcard s := by
   · have e18 : (s.length == 18) = false := by simpa using h18
     simp only [e18, Bool.false_and, Bool.or_false]
     rfl
+
 
 end PGV.Proofs.LangEq
